@@ -108,6 +108,44 @@ def run(F, ck, tier):
     c09.simulation_siblings(F, ck, 'R11.8')
     # R11.9 (shared with R10.8)
     c10.default_targets(F, ck, 'R11.9')
+    # R11.10 the two in-circuit computations of the trace-domain quantities use the same bit widths
+    ck.rule('R11.10', 'compute_eval_vanishing_poly_circuit and verify_stark_proof_with_challenges_circuit derive the trace length, its bits and the subgroup generator with the same bit widths (arguments of exp / split_le as polynomials)')
+    from . import poly as _poly
+    from .facts import walk as _walk, callee as _callee, parse_path as _pp
+    widths = {}
+    for q in ('starky::vanishing_poly::compute_eval_vanishing_poly_circuit', 'starky::recursive_verifier::verify_stark_proof_with_challenges_circuit'):
+        fnq = F.one(q, crate='starky')
+        if fnq is None:
+            ck.ob('R11.10', 'anchor:' + q.split('::')[-1], False, 'ANCHOR-MISSING ' + q)
+            continue
+        E_ = _poly.Ev(F)
+        env_ = {}
+        from .facts import pat_binds as _pb
+        for p_ in fnq.params:
+            for b_ in _pb(p_):
+                if (fnq.types[b_['t']] if b_.get('t') is not None else '') == 'usize':
+                    env_[b_['id']] = _poly.sym('usize-param')
+        for s_ in _walk(fnq.body):
+            if s_.get('k') == 'Let' and 'i' in s_ and s_['p'].get('k') == 'Bind' and s_['p']['id'] not in env_:
+                try:
+                    env_[s_['p']['id']] = E_.ev(fnq, s_['i'], env_, 2)
+                except _poly.Unknown as ex_:
+                    env_[s_['p']['id']] = ex_
+        ws, sp = [], []
+        for x in _walk(fnq.body):
+            if x.get('k') == 'MCall' and x.get('n') in ('exp', 'split_le') and x.get('a'):
+                try:
+                    w_ = _poly.show(E_.ev(fnq, x['a'][-1], env_, 2))
+                except _poly.Unknown:
+                    w_ = '?'
+                (ws if x['n'] == 'exp' else sp).append(w_)
+        widths[fnq.name] = (sorted(ws), sorted(sp))
+    if len(widths) == 2:
+        (ea, sa_), (eb, sb_) = list(widths.values())
+        common_split = sorted(set(sa_) & set(sb_))
+        okw = ea == eb and len(ea) >= 3 and '?' not in ea and any(w in ea for w in common_split)
+        ck.ob('R11.10', 'bit-widths', okw, 'same exp widths in both: %s; the degree is split with width %s in both' % (ea, [w for w in common_split if w in ea]) if okw else
+              'SIBLING DISAGREEMENT on bit widths: %s - an exponent that does not fit its declared width cannot be range-checked, so valid proofs of some lengths are rejected in-circuit' % widths)
     # R11.6 exact pairing in STARK witness assignment
     ck.rule('R11.6', 'STARK witness assignment pairs targets with proof values exactly (zip_eq / fixed arrays / guard rejecting surplus values) and does not drop an optional part the circuit has no target for')
     from . import assign
